@@ -11,7 +11,7 @@ G = {
               "xmss_NewBDSState", "xmss_XMSSFastGenKeyPair"],
  "XMSS_KEY": ["xmss_initializeTree", "xmss_NewXMSSFromSeed", "xmss_NewXMSSFromExtendedSeed", "xmss_NewXMSSFromHeight", "xmss_XMSS_SetIndex", "xmss_XMSS_Sign",
               "xmss_XMSS_GetIndex", "xmss_XMSS_GetPK", "xmss_XMSS_GetRoot", "xmss_XMSS_GetPKSeed", "xmss_XMSS_GetSeed", "xmss_XMSS_GetExtendedSeed",
-              "xmss_XMSS_GetMnemonic", "xmss_XMSS_GetAddress", "xmss_xmssFastUpdate", "xmss_xmssFastSignMessage", "xmss_getSignatureSize",
+              "xmss_XMSS_GetMnemonic", "xmss_XMSS_GetAddress", "xmss_XMSS_GetHexSeed", "xmss_XMSS_GetSK", "xmss_XMSS_GetHeight", "xmss_XMSS_GetLegacyAddress", "xmss_xmssFastUpdate", "xmss_xmssFastSignMessage", "xmss_getSignatureSize",
               "xmss_calculateSignatureBaseSize"],
  "XMSS_VERIFY": ["xmss_Verify", "xmss_VerifyWithCustomWOTSParamW", "xmss_xmssVerifySig", "xmss_validateAuthPath", "xmss_getHeightFromSigSize",
                  "xmss_calculateSignatureBaseSize"],
@@ -23,7 +23,7 @@ G = {
  "MNEMONIC": ["misc_binToMnemonic", "misc_mnemonicToBin", "misc_MnemonicToSeedBin", "misc_MnemonicToExtendedSeedBin", "misc_SeedBinToMnemonic",
               "misc_ExtendedSeedBinToMnemonic"],
  "JS": ["xmssjs_XMSSVerify", "xmssjs_GetXMSSAddressFromPK", "xmssjs_IsValidXMSSAddress", "dilithiumjs_DilithiumVerify",
-        "dilithiumjs_GetDilithiumAddressFromPK", "dilithiumjs_IsValidDilithiumAddress", "dilithiumjs_clearPrefix0x"],
+        "dilithiumjs_GetDilithiumAddressFromPK", "dilithiumjs_IsValidDilithiumAddress", "dilithiumjs_clearPrefix0x", "xmssjs_clearPrefix0x"],
  "DIL_POLY": ["dilithium_polyCAddQ", "dilithium_polyReduce", "dilithium_polyAdd", "dilithium_polySub", "dilithium_polyShiftL", "dilithium_polyNTT",
               "dilithium_polyInvNTTToMont", "dilithium_polyPointWiseMontgomery", "dilithium_polyPower2Round", "dilithium_polyDecompose",
               "dilithium_polyMakeHint", "dilithium_polyUseHint", "dilithium_polyChkNorm", "dilithium_ntt", "dilithium_invNTTToMont"],
